@@ -408,7 +408,8 @@ def replay(cx):
                 bad, what = True, f"{type(ex).__name__}: {ex}"
         return dict(reproduced=bool(bad), key=f"{ob}|{info.get('scorer') or info.get('det')}", what=what + f" [data {A.tolist()}]")
     n, p = info["n"], info["p"]
-    Xf = np.array([[env.get(f"x_{i}_{j}", float((3 * i + 5 * j) % 7) - 2.5) for j in range(p)] for i in range(n)])
+    # default data away from zero so that statistics-based detectors (StatThresholdAnomaliser) flag something
+    Xf = np.array([[env.get(f"x_{i}_{j}", 10.0 + float((3 * i + 5 * j) % 7)) for j in range(p)] for i in range(n)])
     cname = info.get("container", "frame")
     bad = []
     with proxy.native():
